@@ -191,6 +191,13 @@ func (r *c17Run) Main(s *sim.Sim) {
 			s.Probe("expired-token-rejected")
 		} else if out[i].err == nil {
 			s.Probe(fmt.Sprintf("valid-token-accepted-age%d", r.Probes[i].TokenAge))
+		} else if a.token != 0 && a.age < L-200*time.Millisecond && r.RenewDelayPct == 0 && r.Probes[i].TokenAge <= 1 {
+			// the current token, or the one before it well inside its own lifetime: a server
+			// keeps securing its answers with the old token until the client has used the new
+			// one, and the client has to accept them (C16: requests around a renewal complete)
+			s.Fail("C16", "valid-token-rejected", fmt.Sprintf("age%d-within-lifetime", r.Probes[i].TokenAge), "a response secured with token %d (%d tokens back), %v after that token was issued (lifetime %v), was not accepted: %v; %s/%d; channel tokens: %v",
+				a.token, r.Probes[i].TokenAge, a.age.Round(time.Millisecond), L, out[i].err, r.Cfg.Policy, r.Cfg.Mode, sc.VerifTokens())
+			return
 		}
 	}
 	s.Teardown()
@@ -201,5 +208,5 @@ func (r *c17Run) Main(s *sim.Sim) {
 func (r *c17Run) Finish(s *sim.Sim) {}
 
 func init() {
-	Register(&Scenario{Name: "c17", Props: []string{"C17"}, Horizon: 10 * time.Minute, MaxSteps: 800000, New: func() Run { return &c17Run{} }, StuckProperty: "C17"})
+	Register(&Scenario{Name: "c17", Props: []string{"C17", "C16"}, Horizon: 10 * time.Minute, MaxSteps: 800000, New: func() Run { return &c17Run{} }, StuckProperty: "C17"})
 }
